@@ -9,7 +9,7 @@ RULE = ("service-layer scenarios on one node with up to four swaps: peer request
         "a scenario is non-trivial when it has more than one operation; distinct by operation kinds and results")
 
 
-def run_svc(ctx, monitor, clauses_fn, classify, describe, n_quick=48, n_thorough=900, label="svc"):
+def run_svc(ctx, monitor, clauses_fn, classify, describe, n_quick=96, n_thorough=1200, label="svc"):
     n = n_quick if ctx.quick else n_thorough
     d = ctx.harness("svc", args=["-n", n, "-monitor", monitor, "-imports", "From PS Require Import Model.C09Corr."])
     if d is None:
